@@ -108,7 +108,7 @@ GrammarVerdict(es) ==
 (***************************************************************************)
 CfgVerdict(i) ==
     LET e == Defs.cfgdb[i]
-        code == (e.key[4] \div 16) % 8
+        code == e.key[4] \div 16
         same == {j \in 1..Len(Defs.cfgdb) : Defs.cfgdb[j].key = e.key}
     IN IF e.t \notin ValidTypes THEN "cfg-invalid-type"
        ELSE IF StorSize(code) < 0 THEN "cfg-size-code"
